@@ -229,6 +229,7 @@ type workerOut struct {
 	Rechecked    int64                        `json:"determinism_rechecks"`
 	Stats        map[string]int64             `json:"stats"`
 	SimTimeNs    int64                        `json:"simtime_ns"`
+	SimTimeS     int64                        `json:"simtime_s"`
 	Nontrivial   int64                        `json:"nontrivial_runs"`
 	Fingerprints string                       `json:"fingerprints_file"`
 	Violations   []string                     `json:"violation_replays"`
@@ -382,6 +383,7 @@ func runSim(s *spec, tier string, seed uint64, scratch string) int {
 		agg.Runs += wo.Runs
 		agg.Rechecked += wo.Rechecked
 		agg.SimTimeNs += wo.SimTimeNs
+		agg.SimTimeS += wo.SimTimeS
 		agg.Nontrivial += wo.Nontrivial
 		agg.TapeLenTotal += wo.TapeLenTotal
 		if wo.WallS > maxWall {
@@ -510,7 +512,7 @@ func runSim(s *spec, tier string, seed uint64, scratch string) int {
 			"samples":                  agg.Samples,
 			"nontrivial_runs":          agg.Nontrivial,
 			"runs_per_hour":            int64(float64(agg.Runs) / runWall * 3600),
-			"simulated_time_s":         agg.SimTimeNs / 1e9,
+			"simulated_time_s":         agg.SimTimeS + agg.SimTimeNs/1e9,
 			"faults_fired":             faults,
 			"probes_hit":               probes,
 			"probes_never_hit":         zeroProbes,
@@ -537,7 +539,7 @@ func runSim(s *spec, tier string, seed uint64, scratch string) int {
 		die(2, "%v", err)
 	}
 	fmt.Printf("%s %s: engine=%s runs=%d distinct_nontrivial=%d sim_time=%ds faults=%v wall=%.1fs (build %.1fs)\n",
-		s.Prop, tier, agg.Engine, agg.Runs, len(fps), agg.SimTimeNs/1e9, faults, wall, buildS)
+		s.Prop, tier, agg.Engine, agg.Runs, len(fps), agg.SimTimeS+agg.SimTimeNs/1e9, faults, wall, buildS)
 	if len(zeroProbes) > 0 {
 		fmt.Printf("warning: probes never hit: %v\n", zeroProbes)
 	}
